@@ -26,22 +26,23 @@ FUNCTIONS = ['pymeeus/Sun.py:Sun.get_equinox_solstice', 'pymeeus/Sun.py:Sun.equa
              'pymeeus/Epoch.py:Epoch.__iadd__', 'pymeeus/Epoch.py:Epoch.__isub__']
 
 MANIFEST = dict(
-    text=("Lean 4 theorems (Props/C14.lean, 21) about the real-arithmetic model of Sun.get_equinox_solstice, "
+    text=("Lean 4 theorems (Props/C14.lean, 20) about the real-arithmetic model of Sun.get_equinox_solstice, "
           "Sun.equation_of_time, Epoch.rise_set and times_rise_transit_set: ValueError exactly outside years "
           "-1000..3000 and for a bad target, Meeus' tables 27.A/27.B selected as documented; for ANY solar "
           "longitude function, if the season loop exits the returned instant is the last one the longitude was "
           "evaluated at and that longitude is within 2.5e-6 degree of k*90 degrees or of its antipode (partial "
           "correctness only); the equation-of-time (minutes, seconds) recombine to |E| with the sign on the minutes "
-          "(lost below one minute), and its +-180 degree reduction is proved to be the identity on Angles, i.e. NOT to "
-          "reduce (counterexample theorem; known finding); rise <= transit <= set whenever the acos argument is in "
+          "(lost below one minute; known finding), and its +-180 degree reduction lands in [-180, 180] for every value; "
+          "rise <= transit <= set whenever the acos argument is in "
           "[-1,1], which is proved under |lat| + 23.44 + 0.83 + dip <= 90 degrees and proved to fail whenever lat + declination "
           "> 90 - 0.83 - dip, e.g. at latitude 66.5 (known finding); times_rise_transit_set returns no times iff the body at its middle position never reaches h0. "
           "The model's binary64 instantiation agrees with CPython bit for bit on every sampled call (the season loop "
           "fed the solar longitudes the implementation saw). All numerical clauses (1e-5 degree, 88-95 d, "
           "365.2-365.3 d, 25/17.5 min, 45 s/day, 1 degree, 0.005 degree) are measured on the implementation, not "
           "proved: all years -1000..3000 x 4 seasons, 1200 whole years of daily equation-of-time values, 80000 "
-          "sunrise/sunset cases and 480000 synthetic bodies in thorough. Six defects of the implementation are "
-          "listed as known findings (findings.d/C14.json)."),
+          "sunrise/sunset cases and 480000 synthetic bodies in thorough; one pass of the times_rise_transit_set "
+          "iteration moves the transit by at most half a day. Three defects of the implementation remain listed as "
+          "known findings (findings.d/C14.json); three others were fixed in /repo."),
     note=("Partial. Not carried by any theorem: convergence of the season loop and which of the two solutions it "
           "converges to; every numerical bound of the statement (agreement of Meeus' series with each other is "
           "empirical); the iteration of times_rise_transit_set beyond its None test. Trusted: Lean kernel, Mathlib, "
@@ -400,29 +401,7 @@ def check_rts(ctx, Angle, C, p, klass):
         ctx.deviation('rts_meridian_deg', abs(ht))
         ctx.predicate('rts_rise_at_h0_0.005', abs(ar - h0) <= 0.005 and hr < 0, inp, {'rise_h': rise_h, 'alt': ar, 'ha': hr}, klass)
         ctx.predicate('rts_set_at_h0_0.005', abs(as_ - h0) <= 0.005 and hs > 0, inp, {'set_h': set_h, 'alt': as_, 'ha': hs}, klass)
-    ok = abs(ht) <= 0.005
-    ctx.predicate('rts_transit_on_meridian_0.005', ok, inp,
-                  {'transit_h': tran_h, 'ha': ht, 'code_hour_angles': None if ok else rts_transit_trace(Angle, A, p['dt'], th)}, klass)
-
-
-def rts_transit_trace(Angle, A, dt, th):
-    """The transit hour angles (degrees, as the code's Angle arithmetic leaves them, in (-360, 360)) from which the
-    two passes of times_rise_transit_set derive `delta_transit = transit_ha / (-360.0)`; recomputed here with the
-    implementation's own Angle class, only to classify a failure of the meridian clause."""
-    lon, a1, a2, a3 = A[0], A[2], A[4], A[6]
-    m0 = ((a2 + lon - th) / 360.0)()
-    while m0 < 0 or m0 > 1.0:
-        m0 += 1 if m0 < 0 else -1
-    out = []
-    for _ in range(2):
-        n = m0 + dt / 86400.0
-        a = a2() - a1(); b = a3() - a2()
-        a = a - 360.0 * round(a / 360.0); b = b - 360.0 * round(b / 360.0)
-        ta = a2 + n * (a + b + n * (b - a)) / 2.0
-        ha = (th + 360.985647 * m0) - lon - ta
-        out.append(ha())
-        m0 += (ha / (-360.0))()
-    return out
+    ctx.predicate('rts_transit_on_meridian_0.005', abs(ht) <= 0.005, inp, {'transit_h': tran_h, 'ha': ht}, klass)
 
 
 def gen_rts(rng, kind):
@@ -479,7 +458,7 @@ EOT_QUICK_YEARS = [-2000, -1999, -1000, -1, 0, 1000, 1582, 1800, 1900, 1992, 200
 EOT_CENTURIES = [-2000, -1000, -100, 0, 1000, 1500, 1800, 1900, 2000, 2100, 3000, 3901]
 
 
-KNOWN_KEEP = 25
+KNOWN_KEEP = 150
 
 
 def _install_budget(ctx):
@@ -527,8 +506,8 @@ def generate(ctx, shard=0, nshards=1):
         check_season_errors(ctx, Sun, rng, ctx.n(20, 200))
         check_helpers(ctx, Epoch, Angle, rng, ctx.n(150, 1500))
         ctx.sample({'call': "Sun.get_equinox_solstice(1962, 'summer').get_full_date()", 'expected': '1962/6/21 21:24:42'})
-        ctx.sample({'call': 'Sun.equation_of_time(Epoch(2020, 3, 21))', 'observed': '(352, 48.9)', 'expected': 'about (-7, 11)',
-                    'note': 'known finding C14-eot-reduction'})
+        ctx.sample({'call': 'Sun.equation_of_time(Epoch(2020, 3, 21))', 'expected': '(-7, 11.09)',
+                    'note': 'returned (352, 48.9) before the fix of the +-180 degree reduction'})
         ctx.sample({'call': 'Epoch(2020, 6, 21).rise_set(Angle(66.5), Angle(0.0))', 'observed': 'ValueError: math domain error',
                     'note': 'known finding C14-rise-midnight-sun'})
 
@@ -606,22 +585,10 @@ def known_match(finding, failure):
     pred = failure.get('predicate')
     det = failure.get('detail') or {}
     inp = failure.get('input') or []
-
-    def wraps(d):
-        # l0 (in [0, 360)) minus alpha (in [0, 360)) beyond +-180 degrees: the case the neutralised reduction misses
-        return isinstance(d, dict) and 'l0' in d and abs(d['l0'] - d['alpha']) > 180.0
-    if fid == 'C14-eot-reduction':
-        if pred in ('eot_within_25min', 'eot_within_17.5min_1800_2200'):
-            return wraps(det)
-        if pred == 'eot_daily_change_lt_45s':
-            return wraps(det.get('prev')) or wraps(det.get('cur'))
-        return False
     if fid == 'C14-eot-sign-below-one-minute':
         if pred != 'eot_daily_change_lt_45s' or not isinstance(det, dict):
             return False
         p, c = det.get('prev') or {}, det.get('cur') or {}
-        if wraps(p) or wraps(c):
-            return False
         if p.get('m') != 0 and c.get('m') != 0:
             return False
         # one of the two values is below one minute (m == 0, sign lost); with the other sign the clause holds
@@ -634,24 +601,14 @@ def known_match(finding, failure):
         if det.get('out') != 'E:ValueError':
             return False
         lat = inp[3]
-        # (latitude, day-of-year) window: the declination the Sun needs for a midnight sun / polar night of its centre
-        # at that latitude and dip is reached (to 1 degree) on that day of the year
+        # (latitude, day-of-year) window: the declination the Sun needs for a midnight sun of its centre at that
+        # latitude and dip is reached (to 1 degree) on that day of the year
         need = det['needs_decl']
         return abs(lat) >= 63.0 and abs(decl_approx(det['doy'])) >= need - 1.0
-    if fid == 'C14-rise-time-of-day':
-        if pred not in ('rise_altitude_within_1deg', 'set_altitude_within_1deg', 'rise_before_transit_before_set'):
-            return False
-        return len(inp) >= 6 and isinstance(inp[2], float) and inp[2] != math.floor(inp[2])
     if fid == 'C14-rise-accuracy-2100':
         if pred not in ('rise_altitude_within_1deg', 'set_altitude_within_1deg') or len(inp) < 6 or not isinstance(det, dict):
             return False
-        if isinstance(inp[2], float) and inp[2] != math.floor(inp[2]):
-            return False
         return inp[0] >= 2075 and abs(inp[3]) >= 55.0 and abs(det.get('alt', 99.0) - det.get('h0', 0.0)) <= 1.15
-    if fid == 'C14-rts-transit-hour-angle-wrap':
-        if pred != 'rts_transit_on_meridian_0.005' or not isinstance(det, dict):
-            return False
-        return any(abs(h) > 180.0 for h in (det.get('code_hour_angles') or []))
     return False
 
 
